@@ -1467,7 +1467,8 @@ def push(array, n, axis):
 
     import_optional_dependency("bottleneck", min_version="1.3.7")
 
-    if n is not None and 0 < n < array.shape[axis] - 1:
+    axis = axis % array.ndim  # the limited path below compares positions with ``axis``
+    if n is not None and 0 <= n < array.shape[axis] - 1:
         arr = da.broadcast_to(
             da.arange(array.shape[axis], chunks=array.chunks[axis], dtype=array.dtype).reshape(
                 tuple(size if i == axis else 1 for i, size in enumerate(array.shape))
